@@ -341,6 +341,44 @@ def rule_MP10(rep, prog, k):
                     "the registration handler taken at %s is neither called nor disposed of on some path" % t.loc, sample={"consumers": [u.loc for u in uses]})
 
 
+def rule_MP11(rep, prog, k, srcdir):
+    rid = rep.rule("C16-MP11", "dispatch_source_cancel_and_wait leaves the teardown to the manager thread (registers as CANCEL_WAITER) for every source whose kernel "
+                   "registration the manager owns: evaluated over the unote's type bits, the decision depends on BOTH the timer bit and the direct bit (on this "
+                   "back end read / write / signal sources are not direct), and is forced by NEEDS_EVENT; only a deleted source skips it", floor=3)
+    fn = prog.fn("dispatch_source_cancel_and_wait")
+    rep.saw(fn)
+    kk = consts.get(["DSF_NEEDS_EVENT"], srcdir=srcdir, unit="source")
+    fl = [l for l in fn.all_insts() if l.op == "load" and "dq_atomic_flags" in prog.fields(l)]
+    ty = [l for l in fn.all_insts() if l.op == "load" and "du_is_direct" in prog.fields(l)]
+    cx = [c for c in fn.all_insts() if c.op == "cmpxchg" and "dq_atomic_flags" in prog.fields(c)]
+    if not fl or not ty or not cx:
+        rep.unknown(rid, "dispatch_source_cancel_and_wait: flag loads / type byte / CAS not found (%d/%d/%d)" % (len(fl), len(ty), len(cx)))
+        return
+    first_cx = min(cx, key=lambda c: c.id)
+    def waiter(dqf, tb):
+        env = {l.id: dqf for l in fl}
+        env.update({l.id: tb for l in ty})
+        hit, env2 = concrete_walk_any(fn, env, lambda i: i is first_cx or i.op == "ret")
+        if hit is None or hit.op != "cmpxchg":
+            return None
+        v = ceval(fn, hit.ops[2], {k_: v_ for k_, v_ in env2.items() if not isinstance(v_, tuple)})
+        return None if v is None else bool(v & k["DSF_CANCEL_WAITER"])
+    base = {tb: waiter(0, tb) for tb in range(16)}
+    if any(v is None for v in base.values()):
+        rep.unknown(rid, "dispatch_source_cancel_and_wait: the CANCEL_WAITER decision could not be evaluated")
+        return
+    infl = [b for b in range(4) if any(base[tb] != base[tb ^ (1 << b)] for tb in range(16))]
+    rep.require(rid, len(infl) >= 2, first_cx.loc, fn.name, "waiter-decision-ignores-a-type-bit",
+                "in dispatch_source_cancel_and_wait the decision to wait for the manager depends on %d bit(s) of the unote's type byte; it must look at both `timer` and "
+                "`direct`: on this back end fd and signal sources are not direct, and taking the inline try-lock path for them makes the CALLING thread unregister the "
+                "source and free the manager's per-descriptor bookkeeping unsynchronised with the manager thread (or finish the cancellation before the manager has "
+                "installed the source, which then registers it after the cancel completed)" % len(infl), sample={"influencing_bits": infl})
+    rep.require(rid, all(waiter(kk["DSF_NEEDS_EVENT"], tb) for tb in range(16)), first_cx.loc, fn.name, "needs-event-does-not-force-waiter",
+                "with DSF_NEEDS_EVENT set dispatch_source_cancel_and_wait must always register as a waiter")
+    rep.require(rid, not any(waiter(k["DSF_DELETED"], tb) for tb in range(16)), first_cx.loc, fn.name, "deleted-source-waits",
+                "an already deleted source has nothing left to wait for: dispatch_source_cancel_and_wait must not register as a waiter")
+
+
 def rule_MP5(rep, prog, k):
     rid = rep.rule("C16-MP5", "cancelled before activation converges to the same final state: _dispatch_source_activate marks the source installed before it "
                    "finalises the unregistration (DELETED implies installed), so the invoke never registers the descriptor of an already finalised source", floor=2)
@@ -461,6 +499,18 @@ def run(rep, tier="quick", srcdir=None, only=None):
         rule_MP6(rep, prog, k)
     if want("C16-MP10"):
         rule_MP10(rep, prog, k)
+    if want("C16-MP11"):
+        rule_MP11(rep, prog, k, srcdir)
+    if want("C17-OD15"):
+        # a source whose registration failed is DELETED and marked installed in one step: otherwise the cancel wake-up tries to install it a second time
+        # instead of delivering the cancel handler (shared with C17)
+        from . import C17
+        C17.rule_OD15(rep, prog)
+    if want("C06-AI11"):
+        # a cancelled source pushed to the manager queue and suspended before the manager pops it: the pop must clear ENQUEUED_ON_MGR, or no later wake-up
+        # sends it to the manager again and it is never unregistered / its cancel handler never runs (shared with C06)
+        from . import C06
+        C06.rule_AI11(rep, prog, Q(srcdir))
     if want("C11-MP8"):
         # the uninstall of a cancelled, still armed timer happens on the manager queue only (shared with C11)
         from . import C11
